@@ -194,6 +194,15 @@ func specC18long(tier string) *SeqSpec {
 		}
 	}
 	s.Sweep = S
+	// a read of one key, then a write that makes ANOTHER (or the same) key longer: the new bytes are zero,
+	// whatever the read looked at (a seeded change of wave 6 kept the read's copy as a scratch buffer)
+	for _, r := range [][]string{{"BITFIELD_RO", "k1", "GET", "u8", "0"}, {"BITFIELD", "k1", "GET", "u8", "8", "GET", "i16", "3"}, {"BITFIELD", "k3", "GET", "u4", "0"}, {"BITCOUNT", "k1"}, {"BITPOS", "k1", "1"}, {"GETRANGE", "k1", "0", "-1"}, {"BITOP", "NOT", "d1", "k1"}, {"BITFIELD", "k1", "INCRBY", "u8", "0", "1"}} {
+		for _, w := range [][]string{{"SETBIT", "k2", "100", "1"}, {"SETBIT", "k2", "300", "1"}, {"SETBIT", "k2", "700", "0"}, {"SETBIT", "k3", "520", "1"}, {"BITFIELD", "k2", "SET", "u8", "#20", "165"}, {"BITFIELD", "k2", "OVERFLOW", "SAT", "INCRBY", "u8", "#45", "7", "GET", "u8", "#43"}, {"BITFIELD", "k2", "INCRBY", "i16", "777", "-3"}, {"SETBIT", "k2", "1100", "1"}, {"SETBIT", "k2", "4000", "1"}, {"SETBIT", "k1", "2000", "1"}, {"BITFIELD", "k2", "SET", "u8", "#140", "165"}, {"BITFIELD", "k2", "OVERFLOW", "SAT", "INCRBY", "u8", "#150", "7", "GET", "u8", "#148"}, {"BITFIELD", "k3", "INCRBY", "i16", "2000", "-3"},
+			{"SETRANGE", "k2", "200", "x"}, {"BITFIELD", "newkey", "SET", "u8", "#20", "1"}, {"SETBIT", "newkey", "300", "1"}} {
+			s.InitSweep = append(s.InitSweep, Op{Args: r, Then: []Op{{Args: w}, c("GET", "newkey")}})
+		}
+	}
+	s.Keys = append(s.Keys, "newkey")
 	s.Depth = 0
 	return s
 }
